@@ -4,7 +4,7 @@ cd /verif
 one() {
   P=$1
   T=$(mktemp -d /dev/shm/sa_ref.XXXXXX)
-  cp -r /repo/norminette "$T/norminette"; find "$T" -name __pycache__ -prune -exec rm -rf {} +
+  git -C /repo archive HEAD norminette | tar -x -C "$T"; find "$T" -name __pycache__ -prune -exec rm -rf {} +
   if ! (cd "$T" && patch -s -p1 < "$P" >/dev/null 2>&1); then echo "== $(basename $P): PATCH-FAILED"; rm -rf "$T"; return; fi
   OUT=$(SA_REPO="$T" SA_EVIDENCE_DIR="$T/evidence" /venv/bin/python -m sa all 2>&1 | grep -v "^KNOWN-FINDING" | grep -E "^  R-|VIOLATION|ANALYSIS-ERROR|Traceback|^UNDECIDED" | sed "s|$T|<copy>|g" | cut -c1-240)
   if [ -z "$OUT" ]; then echo "== $(basename $P): all silent"; else echo "== $(basename $P):"; echo "$OUT"; fi
